@@ -685,7 +685,12 @@ class Gaussian(Funsor, metaclass=GaussianMeta):
             Tensor(self.white_vec, int_inputs),
             Tensor(self.prec_sqrt, int_inputs),
         ]
-        tensors.extend(subs.values())
+        tensors.extend(
+            v
+            if isinstance(v, Tensor)
+            else Tensor(ops.new_full(self.white_vec, (), v.data))
+            for v in subs.values()
+        )
         int_inputs, tensors = align_tensors(*tensors)
         batch_dim = len(tensors[0].shape) - 1
         batch_shape = broadcast_shape(*(x.shape[:batch_dim] for x in tensors))
